@@ -65,10 +65,9 @@ def optStr (strings : List Str) : Option Nat → Option (Option Str)
   | none => some none
   | some i => (strings[i]?).map some
 
-/-- index-free description of a frame key, over plain lists: `strings` = the thread's string array,
-`libs` = identity strings of the used libraries, `cats` = (name, colour, subcategory names), native symbol
-columns -/
-def descOfCols (strings libs : List Str) (cats : List (Str × Nat × List Str))
+/-- index-free description of a frame key: `strings` = the thread's string array, `libAt l` = identity
+string of used library `l`, `cats` = (name, colour, subcategory names), native symbol columns -/
+def descOfCols (strings : List Str) (libAt : Nat → Option Str) (cats : List (Str × Nat × List Str))
     (nsAddr : List Nat) (nsSize : List (Option Nat)) (nsLib nsName : List Nat) (k : Frame) : Option FrameDesc :=
   match strings[k.name]?, optStr strings k.file, cats[k.cat]? with
   | some name, some file, some c =>
@@ -78,13 +77,13 @@ def descOfCols (strings libs : List Str) (cats : List (Str × Nat × List Str))
       match k.native with
       | none => some ⟨name, (c.1, c.2.1), sub, none, none, none, 0, file, k.line, k.col, k.flags⟩
       | some n =>
-        match libs[n.lib]? with
+        match libAt n.lib with
         | none => none
         | some lib =>
           match n.nsym with
           | none => some ⟨name, (c.1, c.2.1), sub, some lib, some n.addr, none, n.depth, file, k.line, k.col, k.flags⟩
           | some j =>
-            match (nsLib[j]?).bind (libs[·]?), nsAddr[j]?, nsSize[j]?, (nsName[j]?).bind (strings[·]?) with
+            match (nsLib[j]?).bind libAt, nsAddr[j]?, nsSize[j]?, (nsName[j]?).bind (strings[·]?) with
             | some nl, some na, some nsz, some nn =>
               some ⟨name, (c.1, c.2.1), sub, some lib, some n.addr, some (nl, na, nsz, nn), n.depth, file,
                 k.line, k.col, k.flags⟩
@@ -92,7 +91,7 @@ def descOfCols (strings libs : List Str) (cats : List (Str × Nat × List Str))
   | _, _, _ => none
 
 def descOfFrame (s : SerProfile) (t : SerThread) (k : Frame) : Option FrameDesc :=
-  descOfCols t.strings s.libs s.cats t.nsAddr t.nsSize t.nsLib t.nsName k
+  descOfCols t.strings (fun l => s.libs[l]?) s.cats t.nsAddr t.nsSize t.nsLib t.nsName k
 
 /-- every resource row is named after its library: `stringArray[resourceTable.name[r]]` is the display
 name (`LibraryInfo::name`) of `libs[resourceTable.lib[r]]` -/
@@ -107,11 +106,9 @@ def resNamesOk (s : SerProfile) (t : SerThread) : Bool :=
 def decodeFrame (s : SerProfile) (t : SerThread) (i : Nat) : Option FrameDesc :=
   (t.rowFrame i).bind (descOfFrame s t)
 
-/-! the same description on the model state (used to state stability over histories) -/
-
-/-- identity strings of the used libraries (`libs` of the serialized profile) -/
-def GlobalLibs.usedIds (g : GlobalLibs) : List (Option Str) := g.used.map (g.all[·]?)
-
-def serCats' (cats : List Cat) : List (Str × Nat × List Str) := cats.map (fun c => (c.name, c.color, c.subs))
+/-- the same description on a model state: the identity of used library `l` is `get_lib(l)` -/
+def P.descOf (p : P) (th : Thread) (k : Frame) : Option FrameDesc :=
+  descOfCols th.strings.table.strings p.libs.getLibName (p.cats.map (fun c => (c.name, c.color, c.subs)))
+    th.nsyms.addrs th.nsyms.sizes th.nsyms.libs th.nsyms.names k
 
 end PT
